@@ -3,7 +3,7 @@ use crate::out::{self, CaseWriter};
 use crate::rng::Rng;
 use crate::vmgen;
 use crate::Args;
-use cao_lang::compiler::Module;
+use cao_lang::compiler::{CardBody, Module};
 use cao_lang::prelude::*;
 use cao_lang::vm::runtime::RuntimeData;
 use std::collections::HashMap;
@@ -15,6 +15,8 @@ pub struct Host {
 
 pub const TREE_DEPTH: u32 = 12;
 const NAN_BITS: u64 = 0x7FF8_0000_0000_0000;
+const NAN_SENTINEL: f64 = -7.77e77;
+const INF_SENTINEL: f64 = 7.77e77;
 
 /// canonical deep copy of a value as a Coq term of type `tval`
 pub fn tree(v: Value, depth: u32) -> String {
@@ -214,10 +216,10 @@ pub fn observe(vm: &mut Vm<'static, Host>, prog: &CaoCompiledProgram, pr: &Print
 fn run_fresh(prog: &CaoCompiledProgram, pr: &Printed, budget: u64) -> Obs {
     let mut vm = new_vm(budget);
     let o = observe(&mut vm, prog, pr);
-    if o.kind == Kind::Panic {
-        // the VM may be in an arbitrary state; do not run its destructors
-        std::mem::forget(vm);
-    }
+    // Never run the VM's destructor: after a panic its state is arbitrary, and after a value-stack overflow in
+    // FunctionPointer/Closure/NativeFunctionPointer the freed object is still in `object_list`, so that
+    // RuntimeData::clear (called by Drop) frees it a second time (observed as SIGSEGV / abort).
+    std::mem::forget(vm);
     o
 }
 
@@ -261,6 +263,18 @@ const GENEROUS: u64 = 20_000;
 
 fn emit_program(w: &mut CaseWriter, name: &str, m: Module, extra_budgets: &[u64], history: usize, rng: &mut Rng) {
     out::describe_current(&format!("VM program {}", name));
+    if std::env::var("VM_TRACE").is_ok() { eprintln!("program {}", name); }
+    if let Ok(dir) = std::env::var("VM_DUMP") {
+        let _ = std::fs::create_dir_all(&dir);
+        let file = format!("{}/{}.json", dir, name.replace(|c: char| !c.is_alphanumeric(), "_"));
+        let mut mm = m.clone();
+        mm.walk_cards_mut(|_, c| {
+            if let CardBody::ScalarFloat(f) = &mut c.body {
+                if f.is_nan() { *f = NAN_SENTINEL } else if *f == f64::INFINITY { *f = INF_SENTINEL } else if *f == f64::NEG_INFINITY { *f = -INF_SENTINEL }
+            }
+        });
+        std::fs::write(file, serde_json::to_string(&mm).unwrap()).unwrap();
+    }
     let prog = match catch_unwind(AssertUnwindSafe(|| compile(m, None))) {
         Ok(Ok(p)) => p,
         Ok(Err(_)) => {
@@ -284,10 +298,10 @@ fn emit_program(w: &mut CaseWriter, name: &str, m: Module, extra_budgets: &[u64]
             let stop = o.kind == Kind::Panic;
             kinds.push(o.kind);
             if stop {
-                std::mem::forget(vm);
                 break;
             }
         }
+        std::mem::forget(vm);
         w.count("mode.history");
     } else {
         let mut budgets: Vec<u64> = vec![GENEROUS];
@@ -355,4 +369,24 @@ pub fn gen(a: &Args) {
     }
     for (f, c) in features { w.count_n(&format!("feature.{}", f), c); }
     w.finish(serde_json::json!({"profile": if cfg!(debug_assertions) { "debug" } else { "release" }}));
+}
+
+/// `harness replay VM --out module.json [--n budget]`: compile and run one dumped module, print what happened
+pub fn replay(a: &Args) {
+    let text = std::fs::read_to_string(&a.out).expect("module json");
+    let mut m: Module = serde_json::from_str(&text).expect("parse module");
+    m.walk_cards_mut(|_, c| {
+        if let CardBody::ScalarFloat(f) = &mut c.body {
+            if *f == NAN_SENTINEL { *f = f64::NAN } else if *f == INF_SENTINEL { *f = f64::INFINITY } else if *f == -INF_SENTINEL { *f = f64::NEG_INFINITY }
+        }
+    });
+    let prog = compile(m, None).expect("compile");
+    if std::env::var("VM_DISASM").is_ok() { println!("{}", prog.disassemble_string()); }
+    let pr = program_term(&prog);
+    let budgets: Vec<u64> = if a.n == 300 { (1..=400).chain([GENEROUS]).collect() } else { vec![a.n as u64] };
+    for budget in budgets {
+        eprintln!("budget {}", budget);
+        let o = run_fresh(&prog, &pr, budget);
+        println!("budget {} -> {}", budget, &o.term[..o.term.len().min(300)]);
+    }
 }
